@@ -70,6 +70,23 @@ def equal_variants(g, t):
     out.append(("reformatted", Triangle([
         rebuild(c, values={k: refmt(v) for k, v in reversed(list(c.values.items()))}, metadata=remeta(c.metadata))
         for c in cells])))
+    # family D: the same cells built from datetime-like coordinates with a time of day
+    import pandas as pd
+
+    class _DT(datetime.datetime):
+        pass
+
+    kind = g.r.choice(["datetime", "Timestamp", "subclass"])
+    conv = {"datetime": lambda d, h: datetime.datetime(d.year, d.month, d.day, h, 30),
+            "Timestamp": lambda d, h: pd.Timestamp(year=d.year, month=d.month, day=d.day, hour=h, minute=30),
+            "subclass": lambda d, h: _DT(d.year, d.month, d.day, h, 30)}[kind]
+    try:
+        over = lambda c: dict(period_start=conv(c.period_start, 0), period_end=conv(c.period_end, 17),  # noqa: E731
+                              evaluation_date=conv(c.evaluation_date, 17),
+                              **({"prev_evaluation_date": conv(c.prev_evaluation_date, 17)} if t.is_incremental else {}))
+        out.append((f"coords-as-{kind}", Triangle([rebuild(c, **over(c)) for c in cells])))
+    except Exception:  # noqa: BLE001
+        pass
     out += serial_variants(t)
     return out
 
@@ -280,6 +297,8 @@ def run(ctx):
                 continue
             if want:
                 try:
+                    if hash(t) != hash(t) or hash(v) != hash(Triangle(list(v.cells))):
+                        fails.append((f"{name}: hash is not a function of the contents", t, v))
                     if hash(t) != hash(v) or any(hash(a) != hash(b) for a, b in zip(t.cells, v.cells)) \
                             or any(hash(a.metadata) != hash(b.metadata) for a, b in zip(t.cells, v.cells)):
                         fails.append((f"{name}: equal but hashes differ", t, v))
